@@ -417,4 +417,6 @@ UNITS += [
     Unit("PollFuture._clear_executor", "poll.PollFuture._clear_executor", ["C08", "C12"], _setup_pf_clear, _post_pf_clear, cfg=_cfg_fut, self_cls="PollFuture"),
     Unit("_poll_loop", "poll._poll_loop", ["C08", "C03", "C11", "C12", "C18"], _setup_loop, _post_loop, cfg=_cfg_loop),
 ]
-REPLAYS = [("C03", "SP: a delegate cancelled by someone else ends the polled future", "replay/c03_delegate_cancelled_outside.py")]
+REPLAYS = [("C03", "SP: a delegate cancelled by someone else ends the polled future", "replay/c03_delegate_cancelled_outside.py"),
+           ("C08", "PollFuture.__init__", "replay/c08_descriptor_of_resolved_future.py"), ("C03", "PollFuture.__init__", "replay/c08_descriptor_of_resolved_future.py"),
+           ("C12", "PollFuture.__init__", "replay/c08_descriptor_of_resolved_future.py")]
